@@ -432,6 +432,13 @@ impl<'a> LazyValueRef<'a> {
         Ok(unsafe { &mut *raw })
     }
 
+    fn new_number(n: f64) -> Result<Self, ErrorCode> {
+        if n.is_nan() {
+            return Err(ErrorCode::ReadError);
+        }
+        Ok(Self::Number(n))
+    }
+
     /// A string of `len` bytes starting at the cursor. The extent is checked against the input
     /// (by subtraction, so it cannot overflow): a header announcing more bytes than the input
     /// holds is a read error, not a string.
@@ -496,12 +503,15 @@ impl<'a> LazyValueRef<'a> {
             Marker::I64 => cursor
                 .read_i64()
                 .map(|n| (Self::Number(n as f64), Some(cursor.position))),
+            // A NaN cannot be NaN-boxed as a number (`NanBox::number` asserts), so it is a read error.
             Marker::F32 => cursor
                 .read_f32()
-                .map(|n| (Self::Number(n as f64), Some(cursor.position))),
+                .and_then(|n| Self::new_number(n as f64))
+                .map(|n| (n, Some(cursor.position))),
             Marker::F64 => cursor
                 .read_f64()
-                .map(|n| (Self::Number(n), Some(cursor.position))),
+                .and_then(Self::new_number)
+                .map(|n| (n, Some(cursor.position))),
 
             // String types
             Marker::FixStr(len) => {
